@@ -17,9 +17,16 @@ _VARS = []          # index -> (name, z3 Bool)
 _BYNAME = {}
 
 
+_AFF2Z3 = {}      # (mask, c) -> z3 Bool
+_Z3ID2AFF = {}    # z3 ast id -> Aff   (expressions are kept alive by _AFF2Z3)
+
+
 def reset():
     _VARS.clear()
     _BYNAME.clear()
+    _AFF2Z3.clear()
+    _Z3ID2AFF.clear()
+    _EXPRVARS.clear()
 
 
 def newvar(name):
@@ -30,6 +37,23 @@ def newvar(name):
     _VARS.append((name, v))
     _BYNAME[name] = idx
     return Aff(1 << idx, 0)
+
+
+_EXPRVARS = {}
+
+
+def exprvar(key, make_expr):
+    """pseudo-variable standing for an arbitrary z3 Bool term (e.g. "bit k of integer
+    field t"): XOR-closed reasoning treats it as atomic, lowering uses the term"""
+    a = _EXPRVARS.get(key)
+    if a is not None:
+        return a
+    idx = len(_VARS)
+    e = make_expr()
+    _VARS.append(("expr%d" % idx, e))
+    a = Aff(1 << idx, 0)
+    _EXPRVARS[key] = a
+    return a
 
 
 def var_z3(idx):
@@ -92,13 +116,19 @@ def to_z3(b):
         return z3.BoolVal(bool(b))
     if isinstance(b, ZB):
         return b.e
-    # Aff
+    # Aff (memoised so that a condition built from it can be mapped back, see cond_to_bit)
+    key = (b.mask, b.c)
+    e = _AFF2Z3.get(key)
+    if e is not None:
+        return e
     terms = [var_z3(i) for i in range(b.mask.bit_length()) if b.mask >> i & 1]
     e = terms[0]
     for t in terms[1:]:
         e = z3.Xor(e, t)
     if b.c:
         e = z3.Not(e)
+    _AFF2Z3[key] = e
+    _Z3ID2AFF[e.get_id()] = b
     return e
 
 
@@ -172,8 +202,13 @@ def bite(c, a, b):
     return ZB(z3.If(to_z3(c), to_z3(a), to_z3(b)))
 
 
+STATS = {"aff_eq": 0}
+
+
 def beq_cond(a, b):
     """condition (python bool or z3 Bool) for a == b"""
+    if isinstance(norm(a), Aff) or isinstance(norm(b), Aff):
+        STATS["aff_eq"] += 1
     d = bxor(a, b)
     if isinstance(d, int):
         return d == 0
@@ -183,6 +218,13 @@ def beq_cond(a, b):
 def cond_to_bit(c):
     if isinstance(c, bool):
         return 1 if c else 0
+    a = _Z3ID2AFF.get(c.get_id())
+    if a is not None:
+        return a
+    if z3.is_not(c):
+        a = _Z3ID2AFF.get(c.arg(0).get_id())
+        if a is not None:
+            return bnot(a)
     return from_z3(c)
 
 
